@@ -84,7 +84,7 @@ func postgresType(r *compiler.Result, col *compiler.Column, settings config.Comb
 		}
 		return "sql.NullTime"
 
-	case "pg_catalog.time", "pg_catalog.timetz":
+	case "pg_catalog.time", "pg_catalog.timetz", "timetz":
 		if notNull {
 			return "time.Time"
 		}
@@ -96,7 +96,7 @@ func postgresType(r *compiler.Result, col *compiler.Column, settings config.Comb
 		}
 		return "sql.NullTime"
 
-	case "text", "pg_catalog.varchar", "pg_catalog.bpchar", "string":
+	case "text", "pg_catalog.varchar", "pg_catalog.bpchar", "bpchar", "string":
 		if notNull {
 			return "string"
 		}
